@@ -235,9 +235,16 @@ func (w *vprWorld) build(c *vprCase) *vprBuilt {
 		if !ac.On {
 			continue
 		}
-		// commitment / response counts are mapped around the REAL threshold of the node
+		// commitment / response counts are mapped around the REAL threshold of the node:
+		// commitments: model 1 -> threshold - 1, 2 -> threshold; responses: 0 -> none,
+		// = commitments -> every commitment answered, otherwise -> all but one
 		nc := b.base - vprModelBase + ac.Nc
-		nr := nc - (ac.Nc - ac.Nr)
+		nr := nc - 1
+		if ac.Nr == 0 {
+			nr = 0
+		} else if ac.Nr == ac.Nc {
+			nr = nc
+		}
 		agg := &CosiAggregator{Snapshot: s, Commitments: map[int]*crypto.Key{}, Responses: map[int]*[32]byte{}}
 		for i := 0; i < nc; i++ {
 			k := vprKey("vpr-commit", i)
